@@ -190,6 +190,19 @@ def run(rep, kf, tier, seed):
     site_obligations(rep, kf)
     import contracts.dispatch as cd
     cd.discharge(rep, kf, "C05", tier, seed)
+    # default / const slots: the emitted python_code is an expression evaluating to the declared value (P1 / P2 of convert_value)
+    import contracts.convert_value as cv
+    from pyvc import engine_b, core
+    tasks = []
+    for c in cv.build():
+        def t(c=c):
+            r = core.Report("C05", tier, seed)
+            engine_b.discharge(r, kf, [c], "C05", tier, seed)
+            r.obligations = [o for o in r.obligations if "C05" in o.props]
+            return r
+        tasks.append(t)
+    for r in core.run_parallel(tasks):
+        rep.merge(r)
     rep.trusted.extend([
         "pyvc's encoding of the str/re primitives and of the jinja2 AST (filters replace/wordwrap/indent/trim)",
         "CPython's tokenizer as the judge of lexical contexts; jinja2 rendering",
